@@ -7,7 +7,7 @@ LEVEL = "exploration"
 RULE = (
     "Hypothesis draws an engine case (see C06): DAG of <= 5/7 jobs where every edge carries the way the "
     "upstream task is embedded in the downstream parameters (direct value, list element, dict value, nested "
-    "configuration, list inside a dict, Meta parameter, pre-task parameter, init task, explicit dependency; "
+    "configuration, list inside a dict, Meta parameter, pre-task parameter, init task, explicit dependency, pre-task attached to an upstream output; "
     "upstream returning itself, a marked output or a configuration with a marked inner part), exit codes, "
     "tokens, and a schedule of event deliveries. Static oracle: job.dependencies names exactly the upstream "
     "jobs of the model; dynamic oracle, evaluated at the launch event itself: every upstream job has exited "
@@ -23,6 +23,7 @@ MIN_CLASSES = {
     "thorough": {f"embedding:{k}": 1500 for k in ("direct", "list", "dict", "nested", "deep", "meta", "pre", "init", "explicit")},
 }
 MIN_CLASSES["quick"]["has-edge"] = 2000
+MIN_CLASSES["quick"]["pre-task-on-output"] = 150
 
 
 def nontrivial(case, H, labels):
@@ -34,7 +35,7 @@ def prop(ctx, case):
 
 
 def cases(ctx):
-    return eg.engine_cases(max_jobs=ctx.pick(5, 7), up_pct=75, tokens=1, foreign=False, fail_pct=15, wait_pct=10)
+    return eg.engine_cases(max_jobs=ctx.pick(5, 7), up_pct=75, tokens=1, foreign=False, fail_pct=15, wait_pct=10, preout_pct=30)
 
 
 PARTS = [Part("engine", prop, strategy=cases, quick=6400, thorough=160000, shrink_budget=40)]
